@@ -52,7 +52,7 @@ func init() {
 				shards = append(shards, fmt.Sprintf("jan:%d:%d", d, g))
 			}
 		}
-		shards = append(shards, "jan-finalizer", "bulk")
+		shards = append(shards, "jan-finalizer", "bulk", "jan-graph:-1", "jan-graph:0", "jan-graph:5")
 		rep.Set("engine", "seqmc BFS over the real Cache with time as an operation (fixpoint over relative deadlines) + vrt/explore with the janitor goroutine, a clock thread and a script thread (virtual ticker)")
 		if !runWorkers(rep, "C08worker", shards, nil) {
 			fmt.Fprintln(os.Stderr, "C08: worker failure")
@@ -77,6 +77,9 @@ func c08worker(arg string) {
 		c08finalizerWorker(arg)
 	case "bulk":
 		c08bulkWorker(arg)
+	case "jan-graph":
+		def, _ := strconv.Atoi(parts[1])
+		c08janGraph(arg, def)
 	}
 }
 
